@@ -345,7 +345,7 @@ def mutate_value(
         if not mutate_safe:
             value = protect_via_deepcopy(value)
             mutate_safe = True
-        with thawed(value) if not inplace else _rollback_on_error(value):
+        with thawed(value) if not inplace else contextlib.nullcontext(), _rollback_on_error(value):
             for attr, attr_value in attrs.items():
                 if attr in used_attrs:
                     continue
@@ -362,7 +362,7 @@ def mutate_value(
     if attr_transforms:
         if not mutate_safe:
             value = protect_via_deepcopy(value)
-        with thawed(value) if not inplace else _rollback_on_error(value):
+        with thawed(value) if not inplace else contextlib.nullcontext(), _rollback_on_error(value):
             for attr, attr_transform in attr_transforms.items():
                 transformed_value = attr_transform(getattr(value, attr, MISSING))
                 if transformed_value is not MISSING:
